@@ -23,7 +23,7 @@ from ..mir import const_int, op_place
 from ..prov import derive, index_of
 from ..wrules import model, variant_magics, w1
 
-TECHNIQUE = "static analysis: binrw layout/magic rules vs reference (W1/W5); per-arm effect sets over the switch nest of ZiPatch::apply closed under local helper calls (call graph); derives-from obligations on effect operands; dominator checks for conditional effects"
+TECHNIQUE = "static analysis: binrw layout/magic rules vs reference (W1/W5); per-arm effect sets over the switch nest of ZiPatch::apply closed under local helper calls (call graph); derives-from obligations on effect operands; dominator checks for conditional effects; must-pass-through of each arm's effects on its success paths (error-propagation blocks pruned; trip counts for effects written in loops over fixed arrays)"
 TRUSTED = ["pv/wire.py binrw model", "spec/layouts.txt (XIVLauncher ZiPatch structs)", "required-effect table embedded in this rule (reference ZiPatch semantics)", "rustc nightly MIR and call graph"]
 
 TYPES = ["patch::PatchHeader", "patch::PatchChunk", "patch::ApplyOptionChunk", "patch::DirectoryChunk", "patch::SqpkChunk", "patch::SqpkAddData", "patch::SqpkDeleteData",
